@@ -27,6 +27,9 @@ def gen_events(rec, r, n, wd, rep):
         auth = rec.last_written
         L.rec_read(rec, text, key, True, disk, wd, auth=auth)
         L.rec_read(rec, text, key, False, not disk, wd, auth=auth)
+        if j % 2 == 0 and text:
+            # the same file in another legal text layout (case, line width, separators, CRLF)
+            L.rec_read(rec, L.reformat(r, text), key, j % 4 == 0, False, wd, auth=auth)
         if j % 4 == 1:
             # the same object edited and written again (and read back): nothing may survive from the first serialisation
             try:
